@@ -312,6 +312,9 @@ class VN:
                 return T.const(fa // fb)
             return T.app("floordiv", a, b, real=True)
         if isinstance(op, ast.Mod):
+            fa, fb = a.as_fraction(), b.as_fraction()
+            if fa is not None and fb is not None and fb != 0:
+                return T.const(fa % fb)
             return T.app("mod", a, b, real=True)
         if isinstance(op, (ast.BitAnd, ast.BitOr)):
             return T.app("and" if isinstance(op, ast.BitAnd) else "or", a, b)
@@ -330,7 +333,19 @@ class VN:
 
     def ev_BoolOp(self, e, st):
         vals = [self._as_term(self.ev(v, st)) for v in e.values]
-        return T.app("and" if isinstance(e.op, ast.And) else "or", *vals)
+        is_and = isinstance(e.op, ast.And)
+        keep = []
+        for v in vals:
+            if v == (TRUE if is_and else FALSE):
+                continue
+            if v == (FALSE if is_and else TRUE):
+                return v
+            keep.append(v)
+        if not keep:
+            return TRUE if is_and else FALSE
+        if len(keep) == 1:
+            return keep[0]
+        return T.app("and" if is_and else "or", *keep)
 
     def ev_Compare(self, e, st):
         left = self._as_term(self.ev(e.left, st))
@@ -345,6 +360,10 @@ class VN:
         """comparisons of scalar terms are canonicalised on the difference, so that
         `i < n - 1`, `i + 1 < n` and `n - 1 > i` are one condition"""
         if isinstance(a, T.Poly) and isinstance(b, T.Poly):
+            fd = T.sub(b, a).as_fraction()
+            if fd is not None and isinstance(op, (ast.Lt, ast.Gt, ast.LtE, ast.GtE, ast.Eq, ast.NotEq)):
+                res = {ast.Lt: fd > 0, ast.Gt: fd < 0, ast.LtE: fd >= 0, ast.GtE: fd <= 0, ast.Eq: fd == 0, ast.NotEq: fd != 0}[type(op)]
+                return TRUE if res else FALSE
             if isinstance(op, ast.Lt):
                 return T.app("pos", T.sub(b, a))
             if isinstance(op, ast.Gt):
@@ -765,6 +784,11 @@ class VN:
             if len(args) == 1 and not kw:
                 return T.app(name + "_of", self._as_term(a0))
             return T.app(name, *[self._as_term(x) for x in args], *[T.app("kw:" + kk, self._as_term(vv)) for kk, vv in sorted(kw.items())])
+        if short == "sum" and is_tuple(a0) and all(isinstance(x, T.Poly) for x in a0) and not full.startswith("numpy"):
+            out = T.const(0)
+            for x in a0:
+                out = T.add(out, x)
+            return out
         if short == "len" and args:
             if is_tuple(a0):
                 return T.const(len(a0))
@@ -773,8 +797,17 @@ class VN:
             # container type is irrelevant to every question asked of these terms
             return a0
         if short == "zip":
+            if args and all(is_tuple(x) for x in args):
+                return tuple(tuple(col) for col in zip(*args))
             return T.app("zip", *[self._as_term(x) for x in args])
+        if short == "enumerate" and is_tuple(a0):
+            return tuple((T.const(i), x) for i, x in enumerate(a0))
+        if short == "reversed" and is_tuple(a0):
+            return tuple(reversed(a0))
         if short == "range":
+            ints = [x.as_fraction() if isinstance(x, T.Poly) else None for x in args]
+            if args and all(i is not None and i.denominator == 1 for i in ints) and len(range(*[int(i) for i in ints])) <= 16:
+                return tuple(T.const(i) for i in range(*[int(i) for i in ints]))
             return T.app("range", *[self._as_term(x) for x in args], real=True)
         if short == "isscalar" and args:
             return T.app("isscalar", self._as_term(a0), real=True)
@@ -821,6 +854,13 @@ class VN:
             if k is None:
                 raise Unrecognised("store into computed base", node)
             old = st.env.get(k, self.sym(k))
+            if is_tuple(old) and not isinstance(tgt.slice, ast.Slice):
+                i = self._int(tgt.slice, st, None)
+                if i is not None and -len(old) <= i < len(old):
+                    lst = list(old)
+                    lst[i] = val
+                    st.env[k] = tuple(lst)
+                    return
             idx = self._as_term(self.ev(tgt.slice, st))
             st.env[k] = T.app("setitem", self._as_term(old), idx, self._as_term(val))
             st.events.append(("setitem", k, idx, val, node))
@@ -907,6 +947,30 @@ class VN:
         if isinstance(s, ast.Delete):
             return [st]
         raise Unrecognised("value numbering: unsupported statement %s" % type(s).__name__, s)
+
+
+def unroll_loop(vn, s, st):
+    """loop hook: unroll `for` loops whose iterable evaluates to a python tuple of statically known
+    length (symbolic elements); other loops are not handled here (returns None)"""
+    if not isinstance(s, ast.For):
+        return None
+    it = vn.ev(s.iter, st)
+    if not is_tuple(it) or len(it) > 16:
+        return None
+    states = [st]
+    for elem in it:
+        nxt = []
+        for cur in states:
+            if cur.status != "live":
+                nxt.append(cur)
+                continue
+            vn.assign(s.target, elem, cur, s)
+            outs = vn.block(list(s.body), [cur])
+            nxt.extend(outs)
+        states = nxt
+    if s.orelse:
+        states = vn.block(list(s.orelse), states)
+    return states
 
 
 def _replace_atom(t, old_atom, new_term):
